@@ -28,15 +28,24 @@ func cloneRep(r h1.Replica) h1.Replica {
 func c19GenB(thorough bool) func(emit func(c19Base)) {
 	// shard profiles: 0 empty, 1 A(40), 2 A(40)+filler 50 (process 90), 3 filler 85
 	return func(emit func(c19Base)) {
-		ns := []int{1, 2}
-		for _, n := range ns {
+		// shard profile vectors: every combination of profiles 0-3 on one and two shards, plus a move in
+		// progress (4: the shard's own target in_transfer, well scraped; 5: a young normal copy of the
+		// previous shard's target)
+		var profs [][]int
+		for _, n := range []int{1, 2} {
 			dims := []int{}
 			for i := 0; i < n; i++ {
 				dims = append(dims, 4)
 			}
+			product(dims, func(ix []int) { profs = append(profs, append([]int{}, ix...)) })
+		}
+		profs = append(profs, []int{4, 5})
+		for _, prof := range profs {
+			n := len(prof)
 			// last-shard class in cycle 1, new targets, head, idle, min-shard, cycle-2 change, relief disabled
-			dims = append(dims, 2, 3, 2, 2, 2, 3, 2)
-			product(dims, func(ix []int) {
+			dims := []int{2, 3, 2, 2, 2, 3, 2}
+			product(dims, func(rest []int) {
+				ix := append(append([]int{}, prof...), rest...)
 				head := []int64{0, 100}[ix[n+2]]
 				idle := []int64{0, 3600}[ix[n+3]]
 				min := []int32{0, 3}[ix[n+4]]
@@ -56,6 +65,11 @@ func c19GenB(thorough bool) func(emit func(c19Base)) {
 							fill = 50
 						case 3:
 							fill = 85
+						case 4:
+							b.Target(hA, 40, 40, true, "up")
+							b.Copy(s, hA, h1.St{State: "in_transfer", Health: "up", Times: 5, Series: 40, Total: 40})
+						case 5:
+							b.Copy(s, uint64(100*s), h1.St{Health: "up", Times: 1, Series: 40, Total: 40})
 						}
 						if fill > 0 {
 							if cycle == 1 && change == 1 {
@@ -72,7 +86,8 @@ func c19GenB(thorough bool) func(emit func(c19Base)) {
 					case 1:
 						b.Target(1, 10, 10, true, "up")
 					case 2:
-						b.Target(1, 10, 10, true, "up")
+						// target 1 is discovered but the explorer has no result for it yet
+						b.Target(1, 10, 10, true, "")
 						b.Target(2, 60, 60, true, "up")
 					}
 					return b
@@ -86,7 +101,7 @@ func c19GenB(thorough bool) func(emit func(c19Base)) {
 	}
 }
 
-var c19ANames = []string{"identical", "holds-pending-move", "all-unready", "shards-error", "scale-error-first", "scale-error-second", "overloaded", "holds-bigger-copy", "unchangeable-shard-reports-vanished-target", "needs-space"}
+var c19ANames = []string{"identical", "holds-pending-move", "all-unready", "shards-error", "scale-error-first", "scale-error-second", "overloaded", "holds-bigger-copy", "unchangeable-shard-reports-vanished-target", "needs-space", "holds-well-scraped-copies-of-Bs-targets"}
 
 // c19A builds replica A (for both cycles) of the given kind relative to B.
 func c19A(kind int, base *h1.Scenario, cycle int) h1.Replica {
@@ -133,6 +148,10 @@ func c19A(kind int, base *h1.Scenario, cycle int) h1.Replica {
 	case 9: // full, and a target it cannot place: it needs more space
 		return h1.Replica{Shards: []h1.Shard{
 			{Ready: true, Status: map[uint64]h1.St{901: {State: "", Health: "up", Times: 5, Series: 95, Total: 95}}, Head: 95, Proc: 95},
+		}}
+	case 10: // A scrapes B's own targets (and the new one) itself: normal copies, scraped often
+		return h1.Replica{Shards: []h1.Shard{
+			{Ready: true, Status: map[uint64]h1.St{100: {Health: "up", Times: 9, Series: 40, Total: 40}, 200: {Health: "up", Times: 9, Series: 40, Total: 40}, 1: {Health: "up", Times: 9, Series: 10, Total: 10}}, Head: 90, Proc: 90},
 		}}
 	}
 	panic("kind")
